@@ -247,6 +247,21 @@ func evalConf(cf *sdl.Conf, cfg map[string]string) confExpect {
 		} else {
 			val = v
 		}
+	case "prefixStructV":
+		a, okA := cfg[cf.Keys[0]+".a"]
+		b, okB := cfg[cf.Keys[0]+".b"]
+		if !okA && !okB {
+			e.Missing = true
+		}
+		if a == "" {
+			a = "0"
+		}
+		e.Value = fmt.Sprintf("{%s %s}", a, b)
+		if cf.Validate == "struct" {
+			x, _ := strconv.Atoi(a)
+			e.Violate = x < 3 // the struct's own field tag: A validate:"min=3"
+		}
+		return e
 	case "prefixStruct":
 		a, okA := cfg[cf.Keys[0]+".a"]
 		b, okB := cfg[cf.Keys[0]+".b"]
@@ -337,7 +352,7 @@ func (w *World) CheckConfigStages(o *Obs) []Violation {
 			if e.Missing && !cf.Optional && mustFail == "" {
 				mustFail = fmt.Sprintf("%s.%s: required configuration value is missing", i.ID, cf.Field)
 			}
-			if e.Violate && cf.Menu != "prefixStruct" && mustFail == "" {
+			if e.Violate && cf.Menu != "prefixStruct" && !(e.Missing && cf.Optional && cf.Menu == "prefixStructV") && mustFail == "" {
 				mustFail = fmt.Sprintf("%s.%s: bound value %q violates validate=%s", i.ID, cf.Field, e.Value, cf.Validate)
 			}
 		}
